@@ -176,6 +176,10 @@ func vC06Bin[T vNum]() {
 	// known finding: on the iterator path a reuse tensor that is the second operand is overwritten with the first
 	// operand before the operation reads it
 	la, lb := vCfgStr("la"), vCfgStr("lb")
+	// (the vecf32/vecf64 kernels that map x/0 to +Inf are only used on the contiguous path; the iterator kernels follow Go)
+	ldv := vCfgStr("ld")
+	contigPath := !(la == "T" || la == "S" || la == "SS") && !(form == "TT" && (lb == "T" || lb == "S" || lb == "SS")) && !(form == "TT" && ((la == "F") != (lb == "F"))) &&
+		!((mode == "reuse" || mode == "incr") && (ldv == "S" || ldv == "T" || ldv == "SS" || ((ldv == "F") != (la == "F"))))
 	kfB := mode == "reuseB" && (la == "T" || la == "S" || la == "SS" || lb == "T" || lb == "S" || lb == "SS")
 	// column-major findings (C16): min/max between of column-major operands return a row-major tensor filled in
 	// storage order; a reuse/incr destination whose data order differs from the operand's is re-flagged, not re-laid out
@@ -207,14 +211,14 @@ func vC06Bin[T vNum]() {
 				ok = true // Mod/Pow/MinMax with incr: covered by the kernel-level table (C17)
 			}
 			if fdiv0 {
-				vAssertKF2(ok, "incr-value", "KF-C06-fdiv0", vIsZero(y), kfCol, rCol)
+				vAssertKF2(ok, "incr-value", "KF-C06-fdiv0", vAnd(vIsZero(y), contigPath), kfCol, rCol)
 			} else {
 				vAssertKF(ok, "incr-value", kfCol, rCol)
 			}
 			continue
 		}
 		if fdiv0 {
-			vAssertKF3(vBinMatch(op, g, x, y), "value", "KF-C06-fdiv0", vIsZero(y), "KF-C07-reuseB-iter", kfB, kfCol, rCol)
+			vAssertKF3(vBinMatch(op, g, x, y), "value", "KF-C06-fdiv0", vAnd(vIsZero(y), contigPath), "KF-C07-reuseB-iter", kfB, kfCol, rCol)
 		} else if vIsInt[T]() && (op == "Div" || op == "Mod") {
 			if def {
 				vAssertKF2(vBinMatch(op, g, x, y), "value", "KF-C07-reuseB-iter", kfB, kfCol, rCol)
